@@ -101,6 +101,22 @@ def geom_state(s):
         return {"pts": np.array(s.centroid, float)[None, :], "params": {n: float(getattr(s, n)) for n in names}, "radius": None}
 
 
+def radial_profile(s):
+    """distance_to_surface on fixed angles (measured from the shape's own centre, so invariant under moves and homogeneous of
+    degree 1 under resizing); None where the class does not provide it or the shape is not in the xy-plane."""
+    if not hasattr(type(s), "distance_to_surface"):
+        return None
+    with contracts.quiet():
+        try:
+            if hasattr(s, "normal") and abs(abs(float(np.asarray(s.normal, float)[2])) - 1) > 1e-12:
+                return None
+            return np.asarray(s.distance_to_surface(fpr.ANGLES.copy()), float)
+        except (NotImplementedError, ImportError):
+            return None
+        except Exception as e:
+            return ("raises", type(e).__name__)
+
+
 def same_state(a, b):
     if not (np.array_equal(a["pts"], b["pts"]) and a.get("radius") == b.get("radius")):
         return False
@@ -131,7 +147,7 @@ def setup(rec, tier):
                 except Exception as e:
                     old = e
             tgt = a[0]
-            return {"old": old, "geom": geom_state(s), "fp": fpr.observe(s, light=True), "L": fpr.length_scale(s),
+            return {"old": old, "geom": geom_state(s), "fp": fpr.observe(s, light=True), "L": fpr.length_scale(s), "profile": radial_profile(s),
                     "target": np.array(tgt, dtype=float, copy=True) if name in ("centroid", "center") else tgt}
         return f
 
@@ -154,6 +170,10 @@ def setup(rec, tier):
                 ok = d.shape == g0["pts"].shape and np.all(np.abs(d - d[0]) <= 1e-9 * L) and g1.get("radius") == g0.get("radius") \
                     and g1.get("params") == g0.get("params")
                 rec.check("translation", bool(ok), mech0 + "/not-a-pure-translation", lambda: dict(info, before=g0["pts"], after=g1["pts"]))
+                p0, p1 = tok["profile"], radial_profile(s)
+                if isinstance(p0, np.ndarray):
+                    okp = isinstance(p1, np.ndarray) and p1.shape == p0.shape and bool(np.all(np.abs(p1 - p0) <= 1e-8 * np.abs(p0).max()))
+                    rec.check("translation", okp, mech0 + "/radial-profile-changed-by-a-move", lambda: dict(info, before=p0, after=p1))
                 # everything else must have moved with the shape: compare with a freshly built shape at the new place
                 try:
                     fr = fpr.fresh(s)
@@ -215,6 +235,11 @@ def setup(rec, tier):
                     ok = ok and np.allclose(g0["normal"], g1["normal"], atol=1e-12)
                 rec.check("similarity", bool(ok), mech0 + "/not-a-uniform-scaling",
                           lambda: dict(info, s_fit=s_fit, s_expected=s_exp, residual=resid, radius=(g0.get("radius"), g1.get("radius"))))
+            # the radial profile about the shape's own centre scales with the shape
+            p0, p1 = tok["profile"], radial_profile(s)
+            if isinstance(p0, np.ndarray):
+                okp = isinstance(p1, np.ndarray) and p1.shape == p0.shape and bool(np.all(np.abs(p1 - s_exp * p0) <= 1e-8 * s_exp * np.abs(p0).max()))
+                rec.check("scaling-law", okp, mech0 + "/other-observable-not-scaled:distance_to_surface", lambda: dict(info, before=p0, after=p1, s=s_exp))
             # dimensionless observables unchanged; dimensional scalars scale by s^k
             f0, f1 = tok["fp"], fpr.observe(s, light=True)
             three = fpr.is3d(s)
